@@ -68,6 +68,30 @@ static long long realNowNs(clockid_t c)
   return ts.tv_sec * 1000000000LL + ts.tv_nsec;
 }
 
+// Timed waits on condition variables (libstdc++ uses pthread_cond_clockwait(CLOCK_MONOTONIC) for steady_clock deadlines) are
+// given a REAL deadline: the virtual deadline minus the virtual now, from the real now.  Virtual time only moves between ops,
+// so a timed wait inside the code under test ends after the same span of real time instead of "never" (a notify that races the
+// wait - stopTickThread() stores the flag and notifies without the mutex - would otherwise block the join for ever).
+extern "C" int pthread_cond_clockwait(pthread_cond_t* c, pthread_mutex_t* m, clockid_t clk, const struct timespec* abstime)
+{
+  using Fn = int (*)(pthread_cond_t*, pthread_mutex_t*, clockid_t, const struct timespec*);
+  static Fn real = reinterpret_cast<Fn>(dlsym(RTLD_NEXT, "pthread_cond_clockwait"));
+  if (clk == CLOCK_MONOTONIC && g_virtual.load(std::memory_order_acquire))
+  {
+    long long vnow = g_base_ns.load(std::memory_order_relaxed) + g_vns.load(std::memory_order_relaxed);
+    long long rel = abstime->tv_sec * 1000000000LL + abstime->tv_nsec - vnow;
+    // never shorter than 300 ms: the only timed wait here is the tick thread's wait_for(tick) between start() and the join that
+    // follows at once; it must not time out (and tick) just because this process was descheduled for a few milliseconds
+    if (rel < 300000000LL) rel = 300000000LL;
+    long long r = realNowNs(CLOCK_MONOTONIC) + rel;
+    struct timespec ts;
+    ts.tv_sec = r / 1000000000LL;
+    ts.tv_nsec = r % 1000000000LL;
+    return real(c, m, clk, &ts);
+  }
+  return real(c, m, clk, abstime);
+}
+
 // ---------------------------------------------------------------------------------------------- mutex interposer (F32 replay)
 static std::atomic<pthread_mutex_t*> g_park_mutex{nullptr};
 static std::atomic<bool> g_park_armed{false};
